@@ -24,7 +24,14 @@ modifier applied to elements, is exec'd on `sentinel prefix + generated argument
 (ints, rationals, strings, nested and lazy lists); afterwards the prefix entries must be
 the same objects with the same values, and -- run again on a different prefix -- the
 entries left above it must be the same.  Any difference for an element outside the
-documented whole-stack family is a failure of the property with that input."""
+documented whole-stack family is a failure of the property with that input.
+
+Two further input families (both uniform over the element table, see the comments at
+`fn_lists` and `pair_sweep`): argument lists / lazy lists that hold FUNCTION values
+(lambdas of arity 0, 1, 2) as direct or nested items, and two-element SEQUENCES
+(every element A, then every element B that writes interpreter state or mutates), where
+everything below B's arguments -- including what A left -- must keep identity and
+deep value."""
 from __future__ import annotations
 
 import ast
@@ -68,6 +75,7 @@ INTS = (2, 3, 1, 0, 4, 5, -1, 7, 10, -3, 6, 12)
 RATS = ((1, 2), (-3, 4), (5, 3), (7, 2))
 STRS = ("stack", "abc", "a b", "12", "", "Hello", "xyz", "-", "1+1", "[1,2]", "aXb")
 MAXITEMS = 40
+BIG = 20000          # characters of a string shown / compared in full
 _ADDR = re.compile(r"0x[0-9a-fA-F]{6,}")
 
 
@@ -91,7 +99,29 @@ def build(spec):
         return [build(x) for x in spec[1]]
     if k == "lazy":
         return LazyList(iter([build(x) for x in spec[1]]))
+    if k == "fn":
+        return build_fn(spec[1])
     raise ValueError(spec)
+
+
+# function values: one lambda per arity, made by the implementation's own transpiler from
+# a lambda literal (arity 0 pushes a constant, arity 1 doubles, arity 2 adds)
+FN_SOURCES = {0: "λ0|5;", 1: "λ1|d;", 2: "λ2|+;"}
+_FN_CODE = {}
+
+
+def build_fn(arity):
+    ns = namespace()
+    src = FN_SOURCES[arity]
+    if src not in _FN_CODE:
+        from vyxal.transpile import transpile
+        _FN_CODE[src] = transpile(src)
+    st = []
+    g = dict(ns)
+    g["stack"] = st
+    g["ctx"] = ns["Context"]()
+    exec(_FN_CODE[src], g)
+    return st[-1]
 
 
 def canon(x, budget=None):
@@ -106,6 +136,8 @@ def canon(x, budget=None):
     if isinstance(x, int):
         return x
     if isinstance(x, str):
+        if len(x) > BIG:
+            return f"<str of {len(x)} chars starting {x[:60]!r}>"
         # printed object addresses (str() of a LazyList or function inside a result) are not values
         return _ADDR.sub("0x?", x) if "0x" in x else x
     if isinstance(x, float):
@@ -127,6 +159,11 @@ def canon(x, budget=None):
                 out.append("...")
                 break
             out.append(canon(y, budget))
+            if (isinstance(y, str) and len(y) > BIG) or (isinstance(y, int) and y.bit_length() > 8 * BIG):
+                # items that grow without bound (a generator fed a function argument): forcing 40 of them
+                # exhausts memory; the items so far identify the value
+                out.append("...")
+                break
         return out
     if isinstance(x, types.FunctionType):
         return "<function>"
@@ -172,6 +209,61 @@ def fixed_tuples(k):
         [("list", [("int", 3), ("int", 1)]), ("str", "a b"), ("int", 0)][:k],
     ]
     return out
+
+
+def fn_lists():
+    """Input family: lists and lazy lists that hold a FUNCTION value.  The generated pools
+    had numbers, strings and (lazy) lists only, so no code path that *calls* an item of an
+    argument (printing, stringifying, mapping a list of functions ...) was ever taken with a
+    callee that pops from whatever stack it is handed.  General shape: container kind
+    (list | lazy) x function arity (0 | 1 | 2) x position of the function (last | first) as a
+    DIRECT item, and container kind x inner container kind x arity with the function one
+    level down.  Function values as top-level arguments stay outside the quantifier (see the
+    assumption in `run`)."""
+    direct, nested = [], []
+    for a in sorted(FN_SOURCES):
+        f = ("fn", a)
+        for outer in ("list", "lazy"):
+            direct.append((outer, [("int", 4), f]))
+            direct.append((outer, [f, ("str", "a"), ("int", 3)]))
+            for inner in ("list", "lazy"):
+                nested.append((outer, [("int", 4), (inner, [("int", 5), f])]))
+    return direct, nested
+
+
+FN_FILL = [("int", 2), ("list", [("int", 1), ("int", 2), ("int", 3)]), ("str", "ab")]
+
+
+def fn_tuples(k, rng, thorough):
+    """argument tuples for an element of arity k with a function-holding list in one position.
+    thorough: every such list in every position (companions cycled), and in all positions at once; quick: every DIRECT
+    list once (positions cycled) and a seeded sample of the nested ones."""
+    direct, nested = fn_lists()
+    out = []
+    if thorough:
+        for j, lst in enumerate(direct + nested):
+            for pos in range(k):
+                fill = FN_FILL[(j + pos) % len(FN_FILL)]
+                out.append([lst if i == pos else fill for i in range(k)])
+        if k > 1:
+            out += [[lst] * k for lst in direct]
+        return out
+    start = rng.randrange(k)
+    for j, lst in enumerate(direct):
+        pos = (start + j) % k
+        out.append([lst if i == pos else FN_FILL[(j // 2) % 2] for i in range(k)])
+    for lst in rng.sample(nested, 3):
+        pos = rng.randrange(k)
+        out.append([lst if i == pos else FN_FILL[0] for i in range(k)])
+    return out
+
+
+def has_fn(spec):
+    if isinstance(spec, tuple) and spec and spec[0] == "fn":
+        return True
+    if isinstance(spec, (list, tuple)):
+        return any(has_fn(x) for x in spec if isinstance(x, (list, tuple)))
+    return False
 
 
 # ----------------------------------------------------------------------------
@@ -279,6 +371,8 @@ def spec_value(spec):
         return {"q": [spec[1], spec[2]]}
     if k == "str":
         return spec[1]
+    if k == "fn":
+        return "<function>"
     return [spec_value(x) for x in spec[1]]
 
 
@@ -396,6 +490,11 @@ def alias_tuples(k, rng, extra):
     return res
 
 
+# Input families that expose a difference on the UNCHANGED tree and are therefore not run until the
+# integrator has judged the finding (fix in /repo or known_findings.json entry); remove the key to enable.
+PENDING_FINDINGS = {}      # the family "alias-with-function-holding-lists" exposed a defect of LazyList.output, repaired in /repo (b35b39a)
+
+
 def alias_sweep(env, E):
     from vyxal.transpile import transpile
     t0 = time.time()
@@ -404,7 +503,10 @@ def alias_sweep(env, E):
     for key, (text, k) in E.elements.items():
         if key in SKIP or k == 0:
             continue
-        for args in alias_tuples(k, env.rng, extra):
+        tuples = alias_tuples(k, env.rng, extra)
+        if "alias-with-function-holding-lists" not in PENDING_FINDINGS:
+            tuples = tuples + fn_tuples(k, env.rng, env.thorough)
+        for args in tuples:
             cases.append({"kind": "element", "key": key, "code": text, "k": k, "args": args, "listed": key in WHOLE_STACK_ELEMENTS})
     # a handful of modifier applications: the operand runs inside a lambda on the same objects
     ops = [o for o in ("s", "∆ṁ", "Ṙ", "J", "+", "Ṫ", "Ȧ", "U", "f", "ṡ", "G", "∑", "ÞS", "µ") if o in E.elements]
@@ -447,8 +549,252 @@ def alias_sweep(env, E):
                      f"{c['kind']} {name} (consumes {c['k']}): {val['viol']}" + (f" (raised {val['exc']})" if val["exc"] else ""),
                      cls=f"C09:{c['key']}:alias")
     env.count(len(cases), keys)
+    env.note("pending_findings_input_families_not_run", PENDING_FINDINGS)
     env.note("alias_sweep", {"cases": len(cases), "stats": dict(stats), "list_kinds": len(ALIAS_LISTS), "modifier_operands": len(ops),
                              "seconds": round(time.time() - t0, 1)})
+
+
+# ----------------------------------------------------------------------------
+# sequences of two elements: what the first left must survive the second
+# ----------------------------------------------------------------------------
+# Input family: the single-element sweeps start every run from a fresh context and a stack
+# of freshly built values, so they cannot see an element that pushes a LIVE reference to
+# interpreter state (ctx.*, a module-level cache): alone its result has the right value.
+# The property, however, quantifies over every stack an element can meet, and the stacks a
+# program builds hold what earlier elements left.  So: run element A (every key of the
+# table, standard argument tuples) in a fresh context; then, in the SAME context and on the
+# SAME stack, run each element B of the "writer" set on freshly built arguments and demand
+# that every entry below B's arguments -- the sentinels and everything A left -- is the same
+# object with the same deep value.  The B's run one after another in one context (B's results
+# are dropped in between), each twice with different argument kinds, so later B's also meet
+# the state earlier ones wrote.  The writer set is DERIVED from the current source, not listed:
+# elements whose template (or a function named in it) assigns to / calls a mutating method on
+# something reached from `ctx`, elements whose backing function mutates a parameter in place,
+# plus a few generic stack/list elements; thorough adds a seeded sample of all other elements.
+
+_MUTATORS = {"append", "pop", "extend", "insert", "clear", "remove", "update", "add", "sort", "reverse",
+             "setdefault", "popitem", "discard"}
+POPPING_HELPERS = {"pop", "wrapify"}     # they mutate their parameter, and it is the stack: every template names them
+PAIR_GENERIC = ["_", ":", "$", "+", "J", "s", "Ṙ", "w", "f", "M"]
+
+
+def _root_is_ctx(n):
+    depth = 0
+    while isinstance(n, (ast.Attribute, ast.Subscript)):
+        n = n.value
+        depth += 1
+    return depth >= 1 and isinstance(n, ast.Name) and n.id == "ctx"
+
+
+def _targets(n):
+    ts = n.targets if isinstance(n, (ast.Assign, ast.Delete)) else [n.target]
+    out = []
+    for t in ts:
+        out += list(t.elts) if isinstance(t, (ast.Tuple, ast.List)) else [t]
+    return out
+
+
+def _writes_ctx(node):
+    for n in ast.walk(node):
+        if isinstance(n, (ast.Assign, ast.AugAssign, ast.AnnAssign, ast.Delete)) and any(_root_is_ctx(t) for t in _targets(n)):
+            return True
+        if isinstance(n, ast.Call) and isinstance(n.func, ast.Attribute) and n.func.attr in _MUTATORS and _root_is_ctx(n.func.value):
+            return True
+        if isinstance(n, ast.Global):
+            return True          # rebinding module-level state counts as interpreter state too
+    return False
+
+
+def _mutates_param(fn):
+    params = {a.arg for a in fn.args.args + fn.args.kwonlyargs} - {"ctx"}
+    for n in ast.walk(fn):
+        if isinstance(n, ast.Call) and isinstance(n.func, ast.Attribute) and n.func.attr in _MUTATORS \
+                and isinstance(n.func.value, ast.Name) and n.func.value.id in params:
+            return True
+        if isinstance(n, (ast.Assign, ast.AugAssign, ast.Delete)):
+            for t in _targets(n):
+                if isinstance(t, ast.Subscript) and isinstance(t.value, ast.Name) and t.value.id in params:
+                    return True
+    return False
+
+
+def writer_elements(env, E):
+    """keys whose template writes interpreter state / mutates, derived from the current source"""
+    state_fns, mut_fns = set(), set()
+    root = os.path.join(V.REPO, "vyxal")
+    for fn in sorted(os.listdir(root)):
+        if not fn.endswith(".py"):
+            continue
+        try:
+            with open(os.path.join(root, fn), encoding="utf-8") as f:
+                tree = ast.parse(f.read())
+        except (OSError, SyntaxError):
+            continue
+        for n in ast.walk(tree):
+            if isinstance(n, (ast.FunctionDef, ast.AsyncFunctionDef)):
+                if _writes_ctx(n):
+                    state_fns.add(n.name)
+                if _mutates_param(n) and n.name not in POPPING_HELPERS:
+                    mut_fns.add(n.name)
+    state, mut = [], []
+    for key, (text, k) in E.elements.items():
+        try:
+            t = ast.parse(text)
+        except SyntaxError:
+            continue
+        names = {n.id for n in ast.walk(t) if isinstance(n, ast.Name)} | {n.attr for n in ast.walk(t) if isinstance(n, ast.Attribute)}
+        if _writes_ctx(t) or names & state_fns:
+            state.append(key)
+        elif names & mut_fns:
+            mut.append(key)
+    env.note("pair_sweep_derivation", {"functions_writing_ctx_or_globals": sorted(state_fns), "functions_mutating_a_parameter": sorted(mut_fns),
+                                       "elements_writing_state": state, "elements_mutating": mut})
+    return state, mut
+
+
+def _exec_quiet(code, g):
+    try:
+        with contextlib.redirect_stdout(io.StringIO()):
+            exec(code, g)
+    except V.Timeout:
+        raise
+    except RecursionError:
+        return "RecursionError"
+    except BaseException as e:  # noqa: BLE001
+        return type(e).__name__
+    return None
+
+
+def _canon_or_none(x):
+    """canon, or None when the entry cannot be read (a lazy list the first element left may raise when
+    forced: such an entry is compared by identity only)"""
+    try:
+        return canon(x)
+    except V.Timeout:
+        raise
+    except RecursionError:
+        return None
+    except BaseException:  # noqa: BLE001
+        return None
+
+
+def _run_sequence(code_a, args_a, seconds):
+    """-> None or dict(j, viol, ...) for the first B (index j) that disturbed what lay below its arguments"""
+    ns = namespace()
+    prefix = [build(s) for s in PREFIX_A]
+    stack = prefix + [build(s) for s in args_a]
+    ctx = ns["Context"]()
+    ctx.stacks.append(stack)
+    g = dict(ns)
+    g["stack"] = stack
+    g["ctx"] = ctx
+    random.seed(12345)
+    exc_a = _exec_quiet(code_a, g)
+    if not isinstance(g.get("stack"), list):
+        return None
+    if g["stack"] is not stack:      # A rebound the name (judged by the single-element sweep); go on with what it left
+        stack = g["stack"]
+        ctx.stacks[-1:] = [stack]
+    for j, (key_b, code_b, k_b, args_b) in enumerate(seconds):
+        below = list(stack)
+        n = len(below)
+        snap = [_canon_or_none(x) for x in below]
+        stack.extend(build(s) for s in args_b)
+        exc_b = _exec_quiet(code_b, g)
+        viol = None
+        now = g.get("stack")
+        if now is not stack:
+            viol = "the name `stack` was rebound to another object"
+        elif len(stack) < n:
+            viol = f"only {len(stack)} entries left, the {n} below the arguments were not all kept"
+        else:
+            for i in range(n):
+                if stack[i] is not below[i]:
+                    viol = f"entry {i} below the arguments was replaced by another object"
+                    break
+        if viol is None:
+            for i in range(n):
+                after = _canon_or_none(below[i]) if snap[i] is not None else None
+                if after != snap[i] and after is not None:
+                    src = "a sentinel" if i < len(prefix) and below[i] is prefix[i] else "left by the first element"
+                    viol = f"entry {i} below the arguments ({src}) had the value {snap[i]!r} before and {after!r} after"
+                    break
+        if viol is not None:
+            return {"j": j, "viol": viol, "exc_a": exc_a, "exc_b": exc_b, "before": snap[:12]}
+        del stack[n:]
+    return None
+
+
+def run_pair(item):
+    code_a, args_a, seconds = item
+    r = _run_sequence(code_a, args_a, seconds)
+    if r is None:
+        return None
+    # shortest reproducing sequence: the first element, then the offending one alone
+    j = r["j"]
+    short = _run_sequence(code_a, args_a, [seconds[j]])
+    if short is not None:
+        short["sequence"] = [j]
+        return short
+    r["sequence"] = list(range(j + 1))
+    return r
+
+
+def pair_sweep(env, E):
+    t0 = time.time()
+    state, mut = writer_elements(env, E)
+    pool = [k for k in state + mut + PAIR_GENERIC if k in E.elements and k not in SKIP and k not in WHOLE_STACK_ELEMENTS]
+    if env.thorough:
+        rest = [k for k in E.elements if k not in pool and k not in SKIP and k not in WHOLE_STACK_ELEMENTS]
+        pool += env.rng.sample(rest, min(40, len(rest)))
+    pool = list(dict.fromkeys(pool))
+    # each B twice: standard ints, then standard lists (fixed_tuples rows 0 and 2); arity 0 also twice
+    seconds = []
+    for row in (0, 2):
+        for key in pool:
+            text, k = E.elements[key]
+            seconds.append((key, text, k, fixed_tuples(k)[row] if k else []))
+    rows = list(range(8)) if env.thorough else [0, 2, 4]
+    cases = []
+    for key, (text, k) in E.elements.items():
+        if key in SKIP:
+            continue
+        seen = set()
+        for args in ([fixed_tuples(k)[r] for r in rows] if k else [[]]):
+            c = V.canon(args)
+            if c in seen:
+                continue
+            seen.add(c)
+            cases.append({"first": key, "code": text, "k": k, "args": args})
+    res = hard_pmap(run_pair, [(c["code"], c["args"], seconds) for c in cases], soft=10.0, hard=40.0, procs=min(V.NPROC, 6))
+    stats = collections.Counter()
+    per_b = collections.Counter()
+    keys = []
+    for c, (status, val) in zip(cases, res):
+        stats["sequences"] += 1
+        if status != "ok":
+            stats[status] += 1
+            continue
+        if val is None:
+            stats["clean"] += 1
+            keys.append(f"pair:{c['first']}:{V.canon(c['args'])}")
+            continue
+        stats["violations"] += 1
+        seq = [seconds[j] for j in val["sequence"]]
+        b = seq[-1]
+        per_b[b[0]] += 1
+        if per_b[b[0]] > 5:
+            continue            # one defective B fails after every A; five inputs are enough
+        env.fail({"kind": "element-sequence", "key": b[0], "arity": b[2], "args": b[3],
+                  "first": c["first"], "first_args": c["args"], "then": [[x[0], x[3]] for x in seq], "prefix": PREFIX_A},
+                 f"element {b[0]} (consumes {b[2]}) run after element {c['first']} on the stack that one left: {val['viol']}"
+                 + (f" (raised {val['exc_b']})" if val["exc_b"] else "")
+                 + f"; sequence {c['first']} {' '.join(x[0] for x in seq)}, entries below before: {val['before']}",
+                 cls=f"C09:{b[0]}")
+    env.count(len(cases) * len(seconds), keys)
+    env.note("pair_sweep", {"first_elements": len({c['first'] for c in cases}), "sequences": len(cases), "second_elements": pool,
+                            "second_runs_per_sequence": len(seconds), "first_argument_rows_of_fixed_tuples": rows,
+                            "stats": dict(stats), "violations_per_second_element": dict(per_b), "seconds": round(time.time() - t0, 1)})
 
 
 # ----------------------------------------------------------------------------
@@ -638,11 +984,11 @@ def mod_consumed(key, na, nb):
 # the sweep
 # ----------------------------------------------------------------------------
 
-def sweep(env, cases, label):
+def sweep(env, cases, label, soft=4.0):
     """cases: list of dict(kind, key, code, k, args, listed, nondet, ident).  Runs them
     and reports.  -> per-ident minimum number of entries left above the prefix (normal runs)"""
     t0 = time.time()
-    res = hard_pmap(run_case, [(c["code"], c["args"]) for c in cases], soft=4.0, hard=25.0, procs=min(V.NPROC, 6))
+    res = hard_pmap(run_case, [(c["code"], c["args"]) for c in cases], soft=soft, hard=25.0, procs=min(V.NPROC, 6))
     stats = collections.Counter()
     excs = collections.Counter()
     minabove = {}
@@ -658,6 +1004,8 @@ def sweep(env, cases, label):
             continue
         a, b = val
         inp = {"kind": c["kind"], "key": c["key"], "arity": c["k"], "args": c["args"]}
+        if c.get("program"):
+            inp["program"] = c["program"]
         ok_frame = True
         for name, r, pspec in (("A", a, PREFIX_A), ("B", b, PREFIX_B)):
             if r["exc"]:
@@ -754,9 +1102,19 @@ def element_cases(env, E):
             seen.add(c)
             cases.append({"kind": "element", "key": key, "code": text, "k": k, "args": args,
                           "listed": key in WHOLE_STACK_ELEMENTS, "nondet": nondet, "ident": ("e", key)})
+        # function-holding lists (see fn_lists).  An item that is a function is evaluated by the
+        # implementation on ctx.stacks[-1] (vy_str / vy_repr READ the whole stack by design), so what
+        # the element leaves may depend on the entries below: these cases get the frame check (identity
+        # and value of everything below the arguments, both prefixes) but no cross-prefix comparison.
+        if k:
+            for args in fn_tuples(k, env.rng, env.thorough):
+                cases.append({"kind": "element", "key": key, "code": text, "k": k, "args": args,
+                              "listed": key in WHOLE_STACK_ELEMENTS, "nondet": True, "ident": ("e", key), "fnargs": True})
     # elements documented as random: results differ run to run only through `random`, which is seeded
     env.note("skipped_elements", skipped)
-    env.note("not_compared_across_prefixes", sorted({c["key"] for c in cases if c["nondet"]}))
+    env.note("not_compared_across_prefixes", sorted({c["key"] for c in cases if c["nondet"] and not c.get("fnargs")}))
+    env.note("function_holding_list_cases", {"cases": sum(1 for c in cases if c.get("fnargs")), "lambdas": FN_SOURCES,
+                                             "shapes": "list|lazy x arity 0|1|2 x function last|first (direct); list|lazy x list|lazy x arity (nested)"})
     return cases
 
 
@@ -796,6 +1154,12 @@ def modifier_cases(env, E):
             for args in tuples:
                 cases.append({"kind": "modifier", "key": m, "code": code, "k": k, "args": args, "listed": listed,
                               "nondet": nondet, "ident": ("m", m, na, nb), "program": prog})
+            # function-holding lists under a modifier (the operand runs on each item / on the list)
+            if k and (env.thorough or a in base):
+                ft = fn_tuples(k, env.rng, False)
+                for args in env.rng.sample(ft, 3 if env.thorough else 2):
+                    cases.append({"kind": "modifier", "key": m, "code": code, "k": k, "args": args, "listed": listed,
+                                  "nondet": True, "ident": ("m", m, na, nb), "program": prog, "fnargs": True})
     env.note("modifier_operands", {"count": len(operands), "programs_not_transpiled": bad[:10]})
     return cases
 
@@ -886,17 +1250,25 @@ def run(env):
                 "prefix; each modifier is transpiled with operand elements and exec'd likewise; 2 evaluations per case.  Non-trivial = both runs "
                 "completed without an exception (the element really ran to its end); distinct by kind:key:arguments.  Alias runs: every element of "
                 "arity >= 1 (and modifiers applied to a handful of elements) on argument tuples holding eager, nested and lazy lists, with the "
-                "prefix holding the same object, an unforced deep_copy view of it and a list containing it; 1 evaluation per case.")
+                "prefix holding the same object, an unforced deep_copy view of it and a list containing it; 1 evaluation per case.  "
+                "Function-holding lists: every element of arity >= 1 (and modifier programs) on lists / lazy lists with a lambda of arity 0, 1, 2 as a "
+                "direct or nested item (frame check only).  Sequences: every element A on standard tuples, then in the same context each "
+                "state-writing / mutating / generic element B (set derived from the source) on fresh arguments, twice; everything below B's "
+                "arguments, including what A left, must keep identity and deep value; 1 evaluation per (A case, B run).")
     V.import_repo()
     namespace()
     import vyxal.elements as E
     scan_stacks(env)
     last = tie_tables(env, E)
     cases = element_cases(env, E)
-    minabove = sweep(env, cases, "element_sweep")
+    minabove = sweep(env, [c for c in cases if not c.get("fnargs")], "element_sweep")
     mcases = modifier_cases(env, E)
-    minabove.update(sweep(env, mcases, "modifier_sweep"))
+    minabove.update(sweep(env, [c for c in mcases if not c.get("fnargs")], "modifier_sweep"))
+    # the function-holding lists: a shorter alarm (replace-until-fixpoint elements loop on them)
+    for ident, m in sweep(env, [c for c in cases + mcases if c.get("fnargs")], "function_list_sweep", soft=2.0).items():
+        minabove[ident] = min(minabove.get(ident, m), m)
     alias_sweep(env, E)
+    pair_sweep(env, E)
     coq_ties(env, E, last, minabove)
     table_counts(env)
     gq = env.tables.get("gen_quirks") or {}
@@ -905,6 +1277,10 @@ def run(env):
         "tuples_per_element": env.budget(40, 320), "fixed_tuples": 8,
         "kinds": "int/sympy Integer 30%, Rational 10%, str 20%, list 25%, LazyList 15%, nesting <= 2, length <= 4",
         "prefix_A": PREFIX_A, "prefix_B": PREFIX_B,
+        "function_holding_lists": "per element of arity k>=1: quick 12 direct shapes (list|lazy x arity 0|1|2 x function last|first, positions cycled from a "
+                                  "seeded start) + 3 seeded of the 12 nested shapes; thorough all 24 shapes x every position (companions cycled) + direct shapes in all positions at once; modifier programs: 2 (thorough 3) seeded tuples of the quick set",
+        "sequences": "A: every element x fixed_tuples rows (quick 0,2,4; thorough all 8); B: derived writer set + generic (+40 seeded others in thorough), "
+                     "each on fixed_tuples row 0 then row 2, in table order, same context",
     })
     env.sample({"element": "$", "args": fixed_tuples(2)[0], "prefix": PREFIX_A})
     env.sample({"modifier_program": "v+", "consumes": 2})
@@ -928,6 +1304,7 @@ def search_without_tables(env):
     sweep(env, element_cases(env, E), "element_sweep")
     sweep(env, modifier_cases(env, E), "modifier_sweep")
     alias_sweep(env, E)
+    pair_sweep(env, E)
 
 
 def replay(rec):
@@ -947,6 +1324,17 @@ def replay(rec):
         print(" ", r)
         print("still failing" if r["viol"] else "no longer failing")
         return 1 if r["viol"] else 0
+    if inp.get("kind") == "element-sequence":
+        first = inp["first"]
+        seconds = [(k, E.elements[k][0], E.elements[k][1], _tup(a)) for k, a in inp["then"] if k in E.elements]
+        if first not in E.elements or len(seconds) != len(inp["then"]):
+            print("an element of the sequence no longer exists")
+            return 0
+        r = _run_sequence(E.elements[first][0], _tup(inp["first_args"]), seconds)
+        print(f"sequence: {first!r} on {inp['first_args']}, then " + ", ".join(f"{k!r} on {a}" for k, a in inp["then"]))
+        print(" ", r)
+        print("still failing" if r else "no longer failing")
+        return 1 if r else 0
     if inp.get("kind") in ("modifier", "modifier-alias"):
         print("modifier cases are replayed by ./check C09 (the program text is not recorded); recorded failure:")
         print(f["what"])
@@ -969,7 +1357,7 @@ def replay(rec):
 
 def _tup(x):
     """json lists back to the tuple specs build() expects"""
-    if isinstance(x, list) and x and isinstance(x[0], str) and x[0] in ("int", "sint", "rat", "str", "list", "lazy"):
+    if isinstance(x, list) and x and isinstance(x[0], str) and x[0] in ("int", "sint", "rat", "str", "list", "lazy", "fn"):
         if x[0] in ("list", "lazy"):
             return (x[0], [_tup(y) for y in x[1]])
         return tuple(x)
